@@ -125,15 +125,15 @@ def gen_unit(rng, le, strtab, lstrtab, ver=None, fmt=None, asz=None, nops=None, 
             prog.append(op)
             if op == 2:
                 v = rng.choice([0, 1, 5, 127, 128, 200, 70000])
-                prog += uleb(v, rng.choice([0, 0, 1]))
+                prog += uleb(v, rng.choice([0, 0, 1, 9, 11] if allow_vliw else [0, 0, 1]))       # padded to ten bytes and more: still the same number
                 ops.append(('std', op, v))
             elif op == 3:
                 v = rng.choice([-3, 0, 1, 63, 64, -64, -65, 100, -100000])
-                prog += sleb(v, rng.choice([0, 0, 1]))
+                prog += sleb(v, rng.choice([0, 0, 1, 8, 9, 11] if allow_vliw else [0, 0, 1]))   # (the cross-validation programs keep to what LLVM accepts)
                 ops.append(('std', op, v))
             elif op in (4, 5, 12):
                 v = rng.choice([0, 1, 7, 127, 128, 300, 2 ** 32])
-                prog += uleb(v)
+                prog += uleb(v, rng.choice([0, 0, 0, 9] if allow_vliw else [0]))
                 ops.append(('std', op, v))
             elif op == 9:
                 v = rng.choice([0, 1, 0x1234, 0xffff])
